@@ -9,7 +9,8 @@ class C03(TreeCheck):
     prop = "C03"
     rule_text = (
         "programs from g_route (1-4 submitting threads x 6-40 ops: unique-id tasks, cancel of recent futures, map with chunksize in {1,2,3,7,len,len+5} "
-        "over 1-3 iterables of unequal lengths incl. empty, idle time-outs 5-50 ms, resizes) run in profile mode, with one injected delay (D) in "
+        "over 1-3 iterables of unequal lengths incl. empty, idle time-outs 5-50 ms, resizes; raising bodies of 14 exception classes incl. MemoryError/StopIteration/GeneratorExit; in every third program "
+        "one stateful callable wrapped with wrap_non_picklable_objects is submitted repeatedly while the parent changes its state in between) run in profile mode, with one injected delay (D) in "
         "submit/dispatch/result paths, and with jitter (Z); plus an in-process differential run of _get_chunks/_process_chunk/"
         "_chain_from_iterable_of_lists against builtin map. Non-trivial = futures or map calls were observed; distinct = (program shape, mode, "
         "injection function, set of outcome classes, number of executions observed bucketed)."
@@ -20,7 +21,7 @@ class C03(TreeCheck):
         n = 14 if tier == "quick" else 120
         out = []
         for i in range(n):
-            prog, meta = programs.g_route(rng)
+            prog, meta = programs.g_route(rng, wrapped=(i % 3 == 1))
             out.append({"program": prog, "config": {}, "meta": meta})
         return out
 
@@ -43,7 +44,7 @@ class C03(TreeCheck):
         m = case["meta"]
         oc = tuple(sorted({(f["done"]["state"]) if f["done"] else "pending" for f in F.futs.values()}))
         nex = sum(len(t["starts"]) for t in F.tasks.values())
-        return (m.get("kind"), m.get("nthreads"), m.get("kw", {}).get("timeout"), m.get("mode"), m.get("fn"), oc, nex // 10)
+        return (m.get("kind"), m.get("nthreads"), m.get("kw", {}).get("timeout"), m.get("wrapped"), m.get("mode"), m.get("fn"), oc, nex // 10)
 
     def run(self, tier):
         self._chunks = chunks_differential(tier)
